@@ -587,6 +587,29 @@ theorem killFrom_hits (fs : FS) (k : Nat) (t : List Fd) (h : k < t.length) :
     | succ k =>
       simp only [killFrom, List.any_cons, ih k (by simpa using h), Bool.or_true]
 
+theorem killFrom_open (k : Nat) (t : List Fd) :
+    (killFrom k t).filter (fun d => d.closesAt.isNone) = (t.take k).filter (fun d => d.closesAt.isNone) := by
+  induction t generalizing k with
+  | nil => cases k <;> rfl
+  | cons d ds ih =>
+    cases k with
+    | zero =>
+      have := ih 0
+      simp only [List.take_zero, List.filter_nil] at this
+      simp [killFrom, this]
+    | succ k => simp [killFrom, ih k, List.filter_cons]
+
+theorem killFrom_not_denied (fs : FS) (k : Nat) (t : List Fd) (h : ∀ d ∈ t, deniedFd fs d = false) :
+    (killFrom k t).any (deniedFd fs) = false := by
+  induction t generalizing k with
+  | nil => cases k <;> rfl
+  | cons d ds ih =>
+    have hd := h d (by simp)
+    have hds : ∀ x ∈ ds, deniedFd fs x = false := fun x hx => h x (by simp [hx])
+    cases k with
+    | zero => simp [killFrom, deniedFd, ih 0 hds]
+    | succ k => simp [killFrom, hd, ih k hds]
+
 /-- descriptors that close do not disturb the report about the others -/
 theorem listed_filter_open (fs : FS) (t : List Fd) :
     t.filterMap (listed fs) = (t.filter fun d => d.closesAt.isNone).filterMap (listed fs) := by
